@@ -1,4 +1,5 @@
 import BpProofs.SrcTiePyDict
+import BpProofs.SrcTieFromPyDict
 import BpProofs.Props.C04
 /-
   C14 (touching C04), tied to the SOURCE: `Message.to_pydict`, `to_json`, `from_json`.
@@ -35,7 +36,7 @@ import BpProofs.Props.C04
   model does not: `raw ph`) and a fresh instance has the empty pydict (implied by `fieldJsonOk`).
 -/
 namespace Bp.C14
-open Bp Bp.Py Bp.SrcTieJson Bp.SrcTiePyDict
+open Bp Bp.Py Bp.SrcTieJson Bp.SrcTiePyDict Bp.SrcTieFromPyDict
 
 /-- **the per-field step of `Message.to_pydict` as written is the model's `toPyDictSlot`**: for every
     field descriptor, both casings, every `include_default_values`, every oneof state (`hid`, `sel`),
@@ -98,6 +99,51 @@ theorem src_to_pydict_map_is_copied (S : Schema) (cs : KeyCase) (incl : Bool) (f
   | ok pvs =>
     simp only [Except.bind, bind, ofR_ok, res_bind_ok, putR_ok]
     split <;> rfl
+
+/-! ### from_pydict -/
+
+/-- **the per-key step of `Message.from_pydict` as written is the model's** (`keyStepP`: the lookup
+    `meta_by_field_name.get(safe_snake_case(key))` — TypeError for a key that is not a str, `continue` for a
+    key that names no field —, the skip of `None`, and `fromPyField`): for a message-typed field
+    `getattr(self, name)` FIRST (AttributeError for a oneof member that is not the selected one; the
+    default is stored in a PLACEHOLDER slot), then by what came back: a list — `cls().from_pydict(item)`
+    appended per item, `cls()` being a TypeError for `datetime` / `timedelta` / `Optional[…]`; a datetime /
+    timedelta / a wrapper field — the object under the key as it is; anything else —
+    `v.from_pydict(value[key])` IN PLACE (AttributeError on None); for a `map<K, Message>` field the
+    entries are converted into the dict `getattr` returned; every other field receives the object as it
+    is; finally `setattr(self, name, v)` unless `v is None`.  Same state or same exception class. -/
+theorem src_from_pydict_key (S : Schema) (c : Nat) (st : MState) (key : JKey) (p : PVal) (hok : StepOk S c st key p) :
+    Src.from_pydict_key S c (decP S) st key p = ofR (keyStepP S c st key p) :=
+  from_pydict_key_eq S c st key p hok
+
+/-- **the whole method**: `self._serialized_on_wire = True`, the loop body as written once per key
+    (`srcKeysLoop`), `return self` — is the model's `fromPyDictI` -/
+theorem src_from_pydict (S : Schema) (c : Nat) (sl : List Val) (ow : Bool) (unk : Bytes) (cur : List (Option Nat))
+    (ks : List JKey) (ps : List PVal)
+    (hok : KeysTieOk S c { slots := sl, onWire := true, unknown := unk, cur := cur } ks ps) :
+    (srcKeysLoop S c { slots := sl, onWire := true, unknown := unk, cur := cur } ks ps).bind (fun st => .ok (st.toVal c))
+      = ofR (fromPyDictI S (.msg c sl ow unk cur) (.obj ks ps)) :=
+  src_from_pydict_eq S c sl ow unk cur ks ps hok
+
+/-- **a oneof member of message type cannot be loaded by `from_pydict` as written**: on an instance in
+    which the member is not the selected one (a fresh instance: every member), the step for its key
+    raises AttributeError — whatever the dict holds for it (`hidden`: `getattr` raises) -/
+theorem src_from_pydict_unselected_message_member (S : Schema) (c : Nat) (st : MState) (bs : Bytes) (i : Nat) (f : FieldD)
+    (p : PVal) (hfn : findName (fieldsOf S c) (Casing.safeSnake (bs.map Char.ofNat)) 0 = some (i, f))
+    (hm : (f.ty == PType.message) = true) (hh : hidden f i st.cur = true) (hp : p ≠ .null)
+    (hlen : ∀ ks ps, p = .obj ks ps → ks.length = ps.length) :
+    Src.from_pydict_key S c (decP S) st (.str bs) p = .raise .attr := by
+  have hfi : (fieldsOf S c)[i]? = some f := by
+    have := Bp.SrcTieFromDict.findName_spec (fieldsOf S c) _ 0 i f hfn
+    simpa using this.2.1
+  have hg : getAttr S (fieldsOf S c) st i = .error .attr := by simp [getAttr, hfi, hh]
+  rw [key_foundP S c st bs i f p hfn hlen (by
+    intro hmm; simp only [Bool.and_eq_true, beq_iff_eq] at hmm hm; rw [hm] at hmm; cases hmm.1)]
+  cases p <;> first
+    | exact absurd rfl hp
+    | (rw [fromPyField]
+       · simp [hm, hg]
+       all_goals (intros; contradiction))
 
 /-! ### to_json / from_json -/
 
